@@ -13,3 +13,7 @@ open RV.C05
 #print axioms utf8_encode_decode
 #print axioms input_source_equiv
 #print axioms bom_routes_differed_before_F14
+#print axioms ntparser_refines_reference
+#print axioms nqparser_refines_reference
+#print axioms ntparser_lenient_forms
+#print axioms ntparser_error_kinds
